@@ -325,22 +325,27 @@ def rule_R6(ctx, f):
                     caps = oi[0].args[1][3]
                     if cl:
                         ctx.saw(cl)
-                        w = cl.calls_to("MetricVec::with_label_values")
+                        w = cl.calls_to(["MetricVec::with_label_values", "MetricVec::get_metric_with_label_values"])
                         if len(w) == 1:
                             def cap(t):
                                 t = peel(t)
                                 if t[0] == "field" and peel(t[1]) == P1:
                                     return peel(caps[int(t[2])])
                                 return t
-                            okc = cap(w[0].args[0]) == SELF_FIELD("vec") and cap(w[0].args[1]) == P2 and is_call(cl.term_local(0), ["local"]) and peel(cl.term_local(0)[2][0], transparent=[]) == w[0].result_term()
+                            from pvrules import seqeval as _sq
+                            okc = cap(w[0].args[0]) == SELF_FIELD("vec") and cap(w[0].args[1]) == P2 and is_call(cl.term_local(0), ["local"]) and \
+                                (peel(cl.term_local(0)[2][0], transparent=[]) == w[0].result_term() or
+                                 peel(_sq._unwrap_payload(cl.term_local(0)[2][0], stop=w[0].result_term()), transparent=[]) == w[0].result_term())
                 if not oi:
                     # `match self.local.entry(hash) { Occupied(e) => e.into_mut(), Vacant(e) => e.insert(self.vec.with_label_values(vals).local()) }`
                     vi = b.calls_to("VacantEntry::insert")
-                    w = b.calls_to("MetricVec::with_label_values")
+                    w = b.calls_to(["MetricVec::with_label_values", "MetricVec::get_metric_with_label_values"])
                     sw = [bi for bi in b.reachable_blocks() if (lambda si_: si_ and si_[0][0] == "discr" and peel(si_[0][1], transparent=[]) == e.result_term())(b.switch_info(bi))]
                     if len(vi) == 1 and len(w) == 1 and len(sw) == 1:
                         child = peel(vi[0].args[1], transparent=[])
-                        okc = peel(w[0].args[0]) == SELF_FIELD("vec") and peel(w[0].args[1]) == P2 and is_call(child, ["local"]) and peel(child[2][0], transparent=[]) == w[0].result_term() \
+                        from pvrules import seqeval as _sq
+                        okc = peel(w[0].args[0]) == SELF_FIELD("vec") and peel(w[0].args[1]) == P2 and is_call(child, ["local"]) and \
+                            (peel(child[2][0], transparent=[]) == w[0].result_term() or peel(_sq._unwrap_payload(child[2][0], stop=w[0].result_term()), transparent=[]) == w[0].result_term()) \
                             and e.result_term() in list(subterms(vi[0].args[0]))
                         # the shared lookup happens on the Vacant arm only (a hit must not create or replace anything)
                         si_ = b.switch_info(sw[0])
